@@ -542,6 +542,9 @@ func c09ControllerCase(t *rapid.T) {
 }
 
 func TestC09_Controller(tt *testing.T) {
+	vkNote(c09UnitCtl, "gap: replies are observed at the ResponseWriter only; the raw-UDP reply path (sendPkt, 2-byte ID patch of packed replies) has no seam and is not executed")
+	vkNote(c09UnitCtl, "note: on this tree the packed-reply fast path of LookupDnsRespCache_ is dead (finding F3: deadlineNano never set), cache hits go through fillIntoWithTTLInPlace; mutation 'ID not patched in writeCachedResponse' is only observable once F3 is repaired (checked in a scratch tree: caught)")
+	vkNote(c09UnitCtl, "sensitivity (scratch worktrees): singleflight key without qtype CAUGHT; waiter shares leader *Msg CAUGHT (aliasing oracle); DoUDP ID check dropped CAUGHT (transport); closeOnce removed CAUGHT and beginUse second retired check removed CAUGHT (real-thread stress only); retire() closing with ops in flight CAUGHT; idle eviction ignoring inFlight CAUGHT (lifecycle)")
 	rapid.Check(tt, func(t *rapid.T) {
 		c09RunBubble(tt, func() { c09ControllerCase(t) })
 	})
